@@ -101,6 +101,7 @@ package kv
 //@ func findCurrentLastKeyInSequence(wb, req) (parts, err)
 //@ property C13 C16
 //@ requires wb != nil && req != nil
+//@ assert at call Split#0: s == "" || exists k string :: strHasPrefix(k, req.Key) && s == strTrim(k, req.Key)
 //@ ensures err == nil ==> len(parts) <= len(req.SequenceKeyDelta)
 //@ ensures !errIs(err, ErrMissingSequenceDeltas)
 //@ ensures !errIs(err, ErrMissingPartitionKey) && !errIs(err, ErrSequenceDeltaIsZero)
@@ -182,6 +183,7 @@ package kv
 
 //@ func notifications.Modified
 //@ trusted
+//@ requires n != nil
 //@ modifies fields(notifications), fields(proto.NotificationBatch), mapof(n.batch.Notifications)
 
 // applyPut: what is written for a put. The version id is a new one, greater than every
@@ -192,7 +194,7 @@ package kv
 // the sequence waiters, whether or not change notifications are enabled.
 //
 //@ func db.applyPut(d, batch, notifications, putReq, timestamp, updateOperationCallback, internal) (res, err)
-//@ property C12 C15 C16
+//@ property C12 C13 C15 C16
 //@ requires batch != nil && putReq != nil && updateOperationCallback != nil && d.sequenceWaiterTracker != nil && d.log != nil
 //@ requires d.versionIdTracker.v >= -1 && d.versionIdTracker.v < 4611686018427387904
 //@ assert at call MarshalVT#0: se.SecondaryIndexes == putReq.SecondaryIndexes && se.Value == putReq.Value && se.SessionId == putReq.SessionId && se.ClientIdentity == putReq.ClientIdentity && se.PartitionKey == putReq.PartitionKey && se.ModificationTimestamp == timestamp
@@ -266,6 +268,7 @@ package kv
 
 //@ func notifications.DeletedRange
 //@ trusted
+//@ requires n != nil
 //@ modifies fields(notifications), fields(proto.NotificationBatch), mapof(n.batch.Notifications)
 
 // applyDeleteRange: the delete callback (which removes secondary-index entries and
@@ -273,11 +276,29 @@ package kv
 // on an error — whichever way the records themselves are then deleted.
 //
 //@ func db.applyDeleteRange(d, batch, notifications, delReq, updateOperationCallback) (res, err)
-//@ property C15 C12
+//@ property C15 C12 C13
 //@ ghost n int
 //@ requires batch != nil && delReq != nil && updateOperationCallback != nil && d.log != nil && n >= 0
 //@ assume at call RangeScan#0: err == nil ==> ghost(remaining, it) == n because "n names the number of records in the range (ghost parameter)"
 //@ loop 0 invariant it != nil && ghost(remaining, it) >= 0 && ghost(deleteCallbacks, updateOperationCallback) + ghost(remaining, it) == old(ghost(deleteCallbacks, updateOperationCallback)) + n
 //@ loop 1 invariant ghost(deleteCallbacks, updateOperationCallback) == old(ghost(deleteCallbacks, updateOperationCallback)) + n
 //@ ensures err == nil ==> ghost(deleteCallbacks, updateOperationCallback) == old(ghost(deleteCallbacks, updateOperationCallback)) + n
+//@ modifies *
+
+//@ func notifications.Deleted
+//@ trusted
+//@ requires n != nil
+//@ modifies fields(notifications), fields(proto.NotificationBatch), mapof(n.batch.Notifications)
+
+//@ func UpdateOperationCallback.OnDelete(recv, batch, key) (err)
+//@ trusted
+//@ modifies ghset(present, batch)
+
+// applyDelete: a version conflict or an absent key is a per-operation status and writes
+// nothing; no request content makes it panic (in particular with notifications off).
+//
+//@ func db.applyDelete(d, batch, notifications, delReq, updateOperationCallback) (res, err)
+//@ property C12 C13
+//@ requires batch != nil && delReq != nil && updateOperationCallback != nil && d.log != nil
+//@ ensures err == nil ==> res != nil
 //@ modifies *
